@@ -13,6 +13,7 @@ import SqiProofs.QuatGroupIndex
 import SqiProofs.QuatO0
 import SqiGen.QuatAlg
 import SqiGen.QuatMat
+import SqiGen.HnfCore
 /- C14 — "Quaternion algebra and lattice arithmetic is exact and canonical".
    Property theorems about the hand model `SqiModel.Quat` (tie H: the model's executable definitions are run
    against the C functions of algebra.c / dim4.c / lattice.c on every check run by tools/props/c14.py).
@@ -137,6 +138,50 @@ theorem mat_gcd_exact (m : Mat4) :
     0 ≤ m.gcd ∧ (∀ r c, r < 4 → c < 4 → m.gcd ∣ m.get r c) ∧
     (∀ z : ℤ, (∀ r c, r < 4 → c < 4 → z ∣ m.get r c) → z ∣ m.gcd) :=
   ⟨mat_gcd_nonneg m, fun r c hr hc => mat_get_dvd m r c hr hc, fun z h => dvd_mat_gcd m z h⟩
+
+/-! ### tie T for the Hermite-normal-form loop: arithmetic blocks and control skeleton re-extracted from dim4.c -/
+
+/-- the guarded body of the inner loop as translated from the C text IS the model's `hnfStep` (xgcd call, the `u == 0`
+    repair, both linear combinations with their coefficients and signs, the copy into a[k]) -/
+theorem hnf_inner_step_translated (xgcd : ℤ → ℤ → ℤ × ℤ × ℤ) (i k j : Nat) (a : Cols) (h : Nat) :
+    (hnfStep xgcd i k j a) h =
+      ((a.set j (SqiGen.HnfCore.inner_step xgcd Int.tdiv Int.tmod Vec4.get Vec4.lc Vec4.neg i (a k) (a j)).1).set k
+        (SqiGen.HnfCore.inner_step xgcd Int.tdiv Int.tmod Vec4.get Vec4.lc Vec4.neg i (a k) (a j)).2) h := by
+  unfold hnfStep SqiGen.HnfCore.inner_step
+  by_cases h0 : (a j).get i = 0
+  · simp only [h0, if_true, ne_eq, not_true_eq_false, if_false, Cols.set]
+    show a.get h = _
+    split <;> [skip; split] <;> simp_all
+  · simp only [h0, if_false, ne_eq, not_false_eq_true, if_true]
+
+/-- the sign normalisation of the pivot as translated = the normalisation inside the model's `hnfRow` -/
+theorem hnf_normalise_translated (xgcd : ℤ → ℤ → ℤ × ℤ × ℤ) (i : Nat) (ak : Vec4) :
+    SqiGen.HnfCore.normalise xgcd Int.tdiv Int.tmod Vec4.get Vec4.lc Vec4.neg i ak =
+      (if ak.get i < 0 then ak.neg else ak, if ak.get i < 0 then -(ak.get i) else ak.get i) := by
+  unfold SqiGen.HnfCore.normalise
+  rfl
+
+/-- the body of the reduction loop as translated = the column update of the model's `hnfReduce` (truncated quotient,
+    floor adjustment when the remainder is negative, subtraction of the multiple of the pivot column) -/
+theorem hnf_reduce_step_translated (xgcd : ℤ → ℤ → ℤ × ℤ × ℤ) (i : Nat) (b : ℤ) (ak aj : Vec4) :
+    SqiGen.HnfCore.reduce_step xgcd Int.tdiv Int.tmod Vec4.get Vec4.lc Vec4.neg i b ak aj =
+      Vec4.lc 1 aj (-(if Int.tmod (aj.get i) b < 0 then Int.tdiv (aj.get i) b - 1 else Int.tdiv (aj.get i) b)) ak := by
+  unfold SqiGen.HnfCore.reduce_step
+  rfl
+
+/-- … and that column update is literally one unfolding of `hnfReduce` -/
+theorem hnfReduce_unfold (xgcd : ℤ → ℤ → ℤ × ℤ × ℤ) (i k : Nat) (b : ℤ) (n j : Nat) (a : Cols) :
+    hnfReduce i k b (n + 1) j a = hnfReduce i k b n (j + 1)
+      (a.set j (SqiGen.HnfCore.reduce_step xgcd Int.tdiv Int.tmod Vec4.get Vec4.lc Vec4.neg i b (a k) (a j))) := by
+  rw [hnf_reduce_step_translated]
+  rfl
+
+/-- the control skeleton of `ibz_mat_4x8_hnf_core` / `ibz_mat_4x4_hnf_mod` extracted from the current C text (initial
+    values of i, j, k; loop headers; guards; the integer updates of i/j/k; position of the three arithmetic blocks; input
+    and output copy loops with their index expressions) is the one the hand model implements (documented at
+    `SqiModel.Quat.hnfCoreSkeleton`).  Syntactic tie: any change of the loop structure breaks this proof. -/
+theorem hnf_skeleton_translated :
+    SqiGen.HnfCore.skeleton = hnfCoreSkeleton ∧ SqiGen.HnfCore.skeleton_mod = hnfModSkeleton := by decide
 
 /-- the model of `mpz_gcdext` returns a positive gcd with Bezout cofactors -/
 theorem xgcd_bezout : XgcdSpec xgcdGmp := SqiProofs.Xgcd.xgcdGmp_spec
